@@ -51,7 +51,12 @@ func (r *Run) Rapid(t *testing.T, name string, stream int, checks int, prop func
 				rt.Fatalf("property violated: %d class(es)", len(w.fails))
 			}
 			// merge bookkeeping of a passing execution
-			acc.evals++
+			if w.evals > 0 { // the property judged several derived inputs itself
+				acc.evals += w.evals
+				acc.ntEnum += w.ntEnum
+			} else {
+				acc.evals++
+			}
 			if rc.NT {
 				r.ntSet.add(rc.Hash)
 			}
